@@ -5,7 +5,7 @@
    without effect; and over ALL reachable states: a blocked call whose context is cancelled returns after
    at most four steps of its own waiter and itself, with a zero value and a non-nil error when no
    response had reached its waiter. *)
-From Verif Require Import Base Link LinkProofs LinkInv16 LinkInvB LinkInvT LinkProgress LinkHealthy.
+From Verif Require Import Base Link LinkProofs LinkInv16 LinkInvB LinkInvT LinkProgress LinkHealthy LinkFrame.
 
 Theorem cancel_frame :
   forall calls s c,
@@ -94,3 +94,13 @@ Theorem link_stays_up_under_call_cancellation :
     (tget (threads s) TLink = Some LBeforeRead \/ tget (threads s) TLink = Some LWaiting).
 Proof. exact healthy_link_stays_up_lemma. Qed.
 Print Assumptions link_stays_up_under_call_cancellation.
+
+(* "ends only that call", over whole schedules: another call that waits for its response (its waiter
+   goroutine not yet run) is not moved by ANY step that is not its own waiter's - in particular not by
+   the cancellation of any per-call context (its own included: it is the waiter that notices that), nor
+   by late responses, frees and wake-ups of other calls; only cancelling the LINK context reaches it *)
+Theorem other_waiting_calls_undisturbed :
+  forall calls i ent cs s s',
+    KeepC i ent s -> Forall (spares_caller i) cs -> lrun fixed calls s cs = Some s' -> KeepC i ent s'.
+Proof. exact waiting_caller_undisturbed_lemma. Qed.
+Print Assumptions other_waiting_calls_undisturbed.
